@@ -876,6 +876,10 @@ class Transpiler(object):
                     order = int(x_symbol[1])
                 except TypeError:
                     raise TypeError(f'The degree of a derivative must be an int: d{y_symbol} / d{x_symbol}')
+                # int() truncates: 2.7 is not the second derivative, and the "zeroth derivative" is no derivative
+                if order != float(x_symbol[1]) or order < 1:
+                    raise ValueError(f'The degree of a derivative must be a positive integer: d{y_symbol} / '
+                                     f'd{x_symbol}')
 
                 deriv = sympy.Derivative(y_symbol, bound_variable, order, evaluate=evaluate)
             # Otherwise, first degree derivative
